@@ -100,6 +100,9 @@ func loadEngine(repo, verifDir string) (*Engine, error) {
 			}
 		}
 	}
+	for k, v := range e.cs.ConstGlobals {
+		e.constGlobals[k] = v
+	}
 	// index functions
 	for fn := range ssautil.AllFunctions(prog) {
 		if fn.Pkg == nil && fn.Origin() == nil {
@@ -254,12 +257,19 @@ func (e *Engine) stringConst(fc *FnCtx, s string) Val {
 		st := fc.curSt
 		et := types.Typ[types.Uint8]
 		arr := fc.regionArr(st, SliceV{ref, bvlit(0, 64), n, n}, et)
+		if fc.strAssumed == nil {
+			fc.strAssumed = map[string]bool{}
+		}
+		if fc.strAssumed[arr+"|"+st.guard] {
+			return SliceV{ref, bvlit(0, 64), n, n}
+		}
 		var cs []string
 		for i := 0; i < len(s); i++ {
 			cs = append(cs, eq(app("select", arr, bvlit(uint64(i), 64)), bvlit(uint64(s[i]), 8)))
 		}
 		fc.note("string literals are immutable regions with their literal content")
 		fc.assume(st, and(cs...))
+		fc.strAssumed[arr+"|"+st.guard] = true
 	}
 	return SliceV{ref, bvlit(0, 64), n, n}
 }
@@ -277,6 +287,9 @@ func (fc *FnCtx) instantiateAxioms(env *SpecEnv, oa *OpaqueApp) {
 			continue
 		}
 		for _, group := range q.Trig {
+			if len(group) > 1 {
+				continue // multi-pattern triggers are instantiated per query (pairAxioms)
+			}
 			for pi, pat := range group {
 				if pat.K != "call" || pat.X[0].K != "id" || pat.X[0].Name != oa.Fn {
 					continue
@@ -359,6 +372,88 @@ func (fc *FnCtx) matchRest(env *SpecEnv, ax *Axiom, q *Expr, group []*Expr, skip
 			fc.matchRest(env, ax, q, group, skip, k+1, b2, oa)
 		}
 	}
+}
+
+// pairAxioms instantiates axioms with multi-pattern triggers on the applications that occur in
+// the query text.
+func (fc *FnCtx) pairAxioms(text string) string {
+	present := map[string]bool{}
+	for _, id := range identRe.FindAllString(text, -1) {
+		present[id] = true
+	}
+	if fc.pairCache == nil {
+		fc.pairCache = map[string]string{}
+	}
+	var out strings.Builder
+	for _, ax := range fc.eng.cs.Axioms {
+		q := ax.E
+		if q.K != "quant" || q.Op != "forall" {
+			continue
+		}
+		for _, group := range q.Trig {
+			if len(group) < 2 {
+				continue
+			}
+			var rec func(k int, bind map[string]TV, names []string)
+			rec = func(k int, bind map[string]TV, names []string) {
+				if k == len(group) {
+					key := ax.Name + "|" + strings.Join(names, ",")
+					inst, ok := fc.pairCache[key]
+					if !ok {
+						aenv := &SpecEnv{fc: fc, st: fc.pre, old: fc.pre, pkg: fc.eng.typesPkg(ax.Pkg), vars: map[string]TV{}, depth: 5}
+						if aenv.pkg == nil && fc.fn != nil {
+							aenv.pkg = fc.fn.Pkg.Pkg
+						}
+						complete := true
+						for _, b := range q.Vars {
+							tv, ok := bind[b.Name]
+							if !ok {
+								complete = false
+							}
+							aenv.vars[b.Name] = tv
+						}
+						if complete {
+							func() {
+								defer func() {
+									if r := recover(); r != nil {
+										if _, ok := r.(specErr); ok {
+											inst = ""
+											return
+										}
+										panic(r)
+									}
+								}()
+								inst = aenv.evalBool(q.X[0])
+							}()
+						}
+						fc.pairCache[key] = inst
+					}
+					if inst != "" && inst != "true" {
+						out.WriteString("(assert " + inst + ")\n")
+					}
+					return
+				}
+				pat := group[k]
+				if pat.K != "call" || pat.X[0].K != "id" {
+					return
+				}
+				for _, oa := range fc.smt.apps[pat.X[0].Name] {
+					if !present[oa.Name] {
+						continue
+					}
+					b2 := map[string]TV{}
+					for n, v := range bind {
+						b2[n] = v
+					}
+					if matchPattern(pat, oa, b2) {
+						rec(k+1, b2, append(append([]string(nil), names...), oa.Name))
+					}
+				}
+			}
+			rec(0, map[string]TV{}, nil)
+		}
+	}
+	return out.String()
 }
 
 // congruence: equal content => equal value, for pairs of applications present in the text.
